@@ -201,3 +201,5 @@ def check(model: Model, run: Run) -> None:
         run.ob("J2-escape-lead-byte-escaped", ok)
         if not ok:
             run.fail(Finding("J2-escape-lead-byte-escaped", f"{FILTER}.{esite.name}", f"lead={chr(lead)!r}", "the escape character itself is not escaped", model.loc(FILTER, esite.node)))
+    from .c19 import parse_results_fresh
+    parse_results_fresh(model, run, "sansldap._filter", "J5-parse-results-are-fresh", "from_string(str(f)) == f")
